@@ -26,7 +26,7 @@ pub static SPEC: PropSpec = PropSpec {
     case_cpu_s: 10,
     shards: 0,
     run,
-    floors: &[("inputs", 5_000, 200_000), ("compile_ok", 100, 2_000), ("stage_typer_err", 100, 2_000)],
+    floors: &[("inputs", 5_000, 1_000_000), ("compile_ok", 100, 20_000), ("stage_typer_err", 100, 20_000), ("stage_compile_err", 10, 1_000)],
     finish: None,
 };
 
@@ -344,6 +344,11 @@ fn run(ctx: &mut Ctx) {
             });
         }
     }
+    for (i, (id, text)) in util::known_witnesses("C04").iter().enumerate() {
+        if ctx.mine(i as u64) {
+            ctx.case(&format!("witness/{}", id), |c| check_source(c, "witness", text));
+        }
+    }
     let mut k = 0u64;
     for kind in 0..12 {
         for depth in [1usize, 2, 8, 32, 64] {
@@ -374,7 +379,7 @@ fn run(ctx: &mut Ctx) {
         }
     }
     // 2. mutations of corpus + targeted (seeded)
-    let per_shard = tier.pick(9_000u64, 400_000u64) / ctx.nshards as u64 + 1;
+    let per_shard = tier.pick(9_000u64, 3_000_000u64) / ctx.nshards as u64 + 1;
     let mut pool: Vec<&str> = corpus.iter().map(|(_, t)| t.as_str()).filter(|t| t.len() < 6_000).collect();
     // seeds whose descendants mostly re-trigger the recorded non-termination finding stay out of the mutation pool
     pool.extend(TARGETED.iter().copied().filter(|t| !t.contains("f((x, x)")));
